@@ -19,24 +19,27 @@ Proof.
 Qed.
 Print Assumptions C13_dead_reckoning_unit.
 
-(* dropout_step_safe, Madgwick: null acc (IMU; MARG with any / null mag): never an exception, output = dead-reckoned q.
+(* dropout_step_safe, Madgwick(gain=0.4): null acc (IMU; MARG with any / null mag): never an exception, output =
+   dead-reckoned q, and the filter's gains (gain, gain_imu, gain_marg) read back after the call are the configured ones
+   (a dropout does not change the configuration).
    (With a null magnetometer updateMARG delegates to updateIMU at the filter's own Dt = 1/100.) *)
 Theorem C13_dropout_step_safe_madgwick : forall w x y z g0 g1 g2 m0 m1 m2 dt, sq4 w x y z = 1 ->
-  C13_mad_imu_a0_R w x y z g0 g1 g2 dt = Val (dr w x y z g0 g1 g2 dt) /\
-  (exists h, (h = dt \/ h = 1/100) /\ C13_mad_marg_a0_R w x y z g0 g1 g2 m0 m1 m2 dt = Val (dr w x y z g0 g1 g2 h)) /\
-  (C13_mad_marg_am0_R w x y z g0 g1 g2 dt = Val (dr w x y z g0 g1 g2 (1/100)) \/
-   (g0 = 0 /\ g1 = 0 /\ g2 = 0 /\ C13_mad_marg_am0_R w x y z g0 g1 g2 dt = Val [w;x;y;z])).
+  C13_mad_imu_a0_R w x y z g0 g1 g2 dt = Val (dr w x y z g0 g1 g2 dt ++ [2/5; 33/1000; 41/1000]) /\
+  (exists h, (h = dt \/ h = 1/100) /\
+     C13_mad_marg_a0_R w x y z g0 g1 g2 m0 m1 m2 dt = Val (dr w x y z g0 g1 g2 h ++ [2/5; 33/1000; 41/1000])) /\
+  (C13_mad_marg_am0_R w x y z g0 g1 g2 dt = Val (dr w x y z g0 g1 g2 (1/100) ++ [2/5; 33/1000; 41/1000]) \/
+   (g0 = 0 /\ g1 = 0 /\ g2 = 0 /\ C13_mad_marg_am0_R w x y z g0 g1 g2 dt = Val ([w;x;y;z] ++ [2/5; 33/1000; 41/1000]))).
 Proof.
   intros w x y z g0 g1 g2 m0 m1 m2 dt H. split; [exact (mad_imu_a0 _ _ _ _ _ _ _ _ H)|].
   split; [exact (mad_marg_a0 _ _ _ _ _ _ _ _ _ _ _ H)|exact (mad_marg_am0 _ _ _ _ _ _ _ _ H)].
 Qed.
 Print Assumptions C13_dropout_step_safe_madgwick.
 
-(* Mahony: the same, and the carried gyro bias (b0,b1,b2) comes back unchanged *)
+(* Mahony(k_P=3, k_I=0.05): the same; the carried gyro bias (b0,b1,b2) and the gains k_P, k_I come back unchanged *)
 Theorem C13_dropout_step_safe_mahony : forall w x y z g0 g1 g2 m0 m1 m2 b0 b1 b2 dt, sq4 w x y z = 1 ->
-  C13_mah_imu_a0_R w x y z g0 g1 g2 b0 b1 b2 dt = Val (dr w x y z g0 g1 g2 dt ++ [b0;b1;b2]) /\
-  C13_mah_marg_a0_R w x y z g0 g1 g2 m0 m1 m2 b0 b1 b2 dt = Val (dr w x y z g0 g1 g2 dt ++ [b0;b1;b2]) /\
-  C13_mah_marg_am0_R w x y z g0 g1 g2 b0 b1 b2 dt = Val (dr w x y z g0 g1 g2 dt ++ [b0;b1;b2]).
+  C13_mah_imu_a0_R w x y z g0 g1 g2 b0 b1 b2 dt = Val (dr w x y z g0 g1 g2 dt ++ [b0;b1;b2; 3; 1/20]) /\
+  C13_mah_marg_a0_R w x y z g0 g1 g2 m0 m1 m2 b0 b1 b2 dt = Val (dr w x y z g0 g1 g2 dt ++ [b0;b1;b2; 3; 1/20]) /\
+  C13_mah_marg_am0_R w x y z g0 g1 g2 b0 b1 b2 dt = Val (dr w x y z g0 g1 g2 dt ++ [b0;b1;b2; 3; 1/20]).
 Proof.
   intros w x y z g0 g1 g2 m0 m1 m2 b0 b1 b2 dt H. split; [exact (mah_imu_a0 _ _ _ _ _ _ _ _ _ _ _ H)|].
   split; [exact (mah_marg_a0 _ _ _ _ _ _ _ _ _ _ _ _ _ _ H)|exact (mah_marg_am0 _ _ _ _ _ _ _ _ _ _ _ H)].
@@ -67,12 +70,18 @@ Theorem C13_dropout_step_safe_fourati : forall w x y z g0 g1 g2 s0 s1 s2 dt,
 Proof. intros. split; [exact (fou_a0 _ _ _ _ _ _ _ _ _ _ _)|exact (fou_m0 _ _ _ _ _ _ _ _ _ _ _)]. Qed.
 Print Assumptions C13_dropout_step_safe_fourati.
 
-(* ROLEQ: the gyro-propagated quaternion whichever sensor is null — for all q (unit by C13_dead_reckoning_unit) *)
+(* ROLEQ: the gyro-propagated quaternion whichever sensor is null — for all q (unit by C13_dead_reckoning_unit) — and
+   the weights read back unchanged; also with a zero weight on the sensor that dropped out (weights [1,0] / [0,1]) *)
 Theorem C13_dropout_step_safe_roleq : forall w x y z g0 g1 g2 s0 s1 s2 dt,
-  C13_rol_a0_R w x y z g0 g1 g2 s0 s1 s2 dt = Val (dr w x y z g0 g1 g2 dt) /\
-  C13_rol_m0_R w x y z g0 g1 g2 s0 s1 s2 dt = Val (dr w x y z g0 g1 g2 dt) /\
-  C13_rol_am0_R w x y z g0 g1 g2 dt = Val (dr w x y z g0 g1 g2 dt).
-Proof. intros. split; [exact (rol_a0 _ _ _ _ _ _ _ _ _ _ _)|]. split; [exact (rol_m0 _ _ _ _ _ _ _ _ _ _ _)|exact (rol_am0 _ _ _ _ _ _ _ _)]. Qed.
+  C13_rol_a0_R w x y z g0 g1 g2 s0 s1 s2 dt = Val (dr w x y z g0 g1 g2 dt ++ [1;1]) /\
+  C13_rol_m0_R w x y z g0 g1 g2 s0 s1 s2 dt = Val (dr w x y z g0 g1 g2 dt ++ [1;1]) /\
+  C13_rol_am0_R w x y z g0 g1 g2 dt = Val (dr w x y z g0 g1 g2 dt ++ [1;1]) /\
+  C13_rol_m0_w10_R w x y z g0 g1 g2 s0 s1 s2 dt = Val (dr w x y z g0 g1 g2 dt ++ [1;0]) /\
+  C13_rol_a0_w01_R w x y z g0 g1 g2 s0 s1 s2 dt = Val (dr w x y z g0 g1 g2 dt ++ [0;1]).
+Proof.
+  intros. split; [exact (rol_a0 _ _ _ _ _ _ _ _ _ _ _)|]. split; [exact (rol_m0 _ _ _ _ _ _ _ _ _ _ _)|].
+  split; [exact (rol_am0 _ _ _ _ _ _ _ _)|]. split; [exact (rol_m0_w10 _ _ _ _ _ _ _ _ _ _ _)|exact (rol_a0_w01 _ _ _ _ _ _ _ _ _ _ _)].
+Qed.
 Print Assumptions C13_dropout_step_safe_roleq.
 
 (* EKF: null acc returns the prior with the covariance untouched (identity at construction); null mag with a valid acc is
@@ -106,10 +115,13 @@ Print Assumptions C13_dropout_step_safe_fkf_partial.
 
 (* Complementary driver on two rows with w0 given, acc[1] = 0 (needs fix C13-complementary-dropout): the angles are the
    gyro-integrated previous angles (no blend with a 0/0 tilt), the quaternion is unit.
-   PARTIAL: the MARG architecture (target C13_comp_marg_a0) is covered by correspondence and search only. *)
-Theorem C13_dropout_step_safe_complementary_partial : forall r0 p0 y0 h0 h1 h2 g0 g1 g2 a0 a1 a2,
-  comp_leaf (r0 + g0 * (1/100)) (p0 + g1 * (1/100)) (C13_comp_imu_a0_R r0 p0 y0 h0 h1 h2 g0 g1 g2 a0 a1 a2).
-Proof. exact comp_imu_a0. Qed.
+   MARG architecture: all three angles, yaw included, are the gyro-integrated previous ones (or ValueError for a null mag).
+   PARTIAL: unit norm of the MARG quaternion built from the angles is covered by correspondence and search only. *)
+Theorem C13_dropout_step_safe_complementary_partial : forall r0 p0 y0 h0 h1 h2 g0 g1 g2 a0 a1 a2 n0 n1 n2 m0 m1 m2,
+  comp_leaf (r0 + g0 * (1/100)) (p0 + g1 * (1/100)) (C13_comp_imu_a0_R r0 p0 y0 h0 h1 h2 g0 g1 g2 a0 a1 a2) /\
+  comp3_leaf (r0 + g0 * (1/100)) (p0 + g1 * (1/100)) (y0 + g2 * (1/100))
+    (C13_comp_marg_a0_R r0 p0 y0 h0 h1 h2 g0 g1 g2 a0 a1 a2 n0 n1 n2 m0 m1 m2).
+Proof. intros. split; [exact (comp_imu_a0 _ _ _ _ _ _ _ _ _ _ _ _)|exact (comp_marg_a0 _ _ _ _ _ _ _ _ _ _ _ _ _ _ _ _ _ _)]. Qed.
 Print Assumptions C13_dropout_step_safe_complementary_partial.
 
 (* dropout_history_safe: a driver `run` that threads ANY step through ANY history: if the step keeps the invariant `ok`
@@ -151,7 +163,7 @@ Print Assumptions C13_dropout_history_safe_instance.
 
 (* non-vacuity: a unit quaternion, a non-trivial gyro sample, and the value of the dropout step on them *)
 Example C13_nonvacuous : sq4 (3/5) 0 (4/5) 0 = 1 /\ unit4 (dr (3/5) 0 (4/5) 0 1 2 3 (1/100)) /\
-  C13_rol_am0_R (3/5) 0 (4/5) 0 1 2 3 (1/100) = Val (dr (3/5) 0 (4/5) 0 1 2 3 (1/100)) /\
+  C13_rol_am0_R (3/5) 0 (4/5) 0 1 2 3 (1/100) = Val (dr (3/5) 0 (4/5) 0 1 2 3 (1/100) ++ [1;1]) /\
   dr0 (3/5) 0 (4/5) 0 1 2 3 (1/100) = 3/5 - 1/125.
 Proof.
   assert (H : sq4 (3/5) 0 (4/5) 0 = 1) by (unfold sq4; field).
